@@ -286,7 +286,8 @@ def _run_merge(desc):
                 # the per-frame motor / monitor arrays in other memory layouts too (a transposed [frame, scan] array, a view of a wider
                 # one): the flat frame number scan*nframes+frame refers to the logical (row-major) order
                 big = np.zeros((3, 8)); big[:, ::2] = scale
-                layouts = [("C", omega, dty, scale)]
+                # scale factors of the order 1e-5 as well (intensities normalised to counts per monitor count: every scaled sum is far below 1)
+                layouts = [("C", omega, dty, scale), ("C, small scale factors", omega, dty, scale * 2.0 ** -16)]
                 if idx % 3 == 0:
                     layouts += [("F", np.asfortranarray(omega), np.asfortranarray(dty), np.asfortranarray(scale)),
                                 ("F-scale-only", omega, dty, np.asfortranarray(scale)),
@@ -468,6 +469,17 @@ def _run_pipeline(desc):
                 t2.rc[:, :] = pk.rc
                 t2.find_uniq()
                 got2 = t2.pk2dmerge(ds.omega, ds.dty)
+            # history on the same table: the stored pairs are replaced in place by a different graph (first every peak alone, then the real
+            # pairs again) and the labelling is asked for again each time: it is that of the pairs stored NOW
+            with contextlib.redirect_stdout(io.StringIO()):
+                t2.rc[:, :] = 0
+                n_alone, _ = t2.find_uniq()
+                t2.rc[:, :] = pk.rc
+                n_back, lab_back = t2.find_uniq()
+            if int(n_alone) != pk.pk_props.shape[1] or int(n_back) != len(got2["spot3d_id"]):
+                sh.violation("pks_table.find_uniq[again after the pair table changed]:labels-of-an-earlier-pair-table", case,
+                             {"labels_with_no_pairs": int(n_alone), "peaks": int(pk.pk_props.shape[1]), "labels_with_the_pairs_back": int(n_back),
+                              "expected": int(len(got2["spot3d_id"]))})
             have2 = [(int(got2["Number_of_pixels"][k]), int(round(got2["sum_intensity"][k])), int(got2["npk2d"][k]), float(got2["s_raw"][k]), float(got2["f_raw"][k]),
                       float(got2["omega"][k]), float(got2["dty"][k])) for k in range(len(got2["spot3d_id"]))]
             # a table whose pair storage was counted for two more pairs than are stored (nothing in the library clears a slot), allocated
